@@ -273,6 +273,7 @@ package flags
 // function returns through reflection is not go-flags' own unknown-flag error.)
 //@ assumed func reflect.Value.Call(v reflect.Value, in []reflect.Value) (out []reflect.Value)
 //@   traced
+//@   requires !v.IsNil()
 //@ assumed func reflect.Type.In(t reflect.Type, i int) (r reflect.Type)
 //@   pure
 //@   requires 0 <= i && i < t.NumIn()
@@ -282,10 +283,12 @@ package flags
 //@   requires option != nil
 //@   let c0 := ncalls(convert)
 //@   let k0 := ncalls(reflect.Value.Call)
-//@   ensures[C01] value == nil ==> ncalls(convert) == c0 && ncalls(reflect.Value.Call) == k0 + 1 && callarg(reflect.Value.Call, k0, 0) == option.value
+// (C04: an option whose function was never assigned is reported, not called)
+//@   ensures[C04,C14] option.value.IsNil() ==> isTyped(err, ErrMarshal) && ncalls(convert) == c0 && ncalls(reflect.Value.Call) == k0
+//@   ensures[C01] !option.value.IsNil() && value == nil ==> ncalls(convert) == c0 && ncalls(reflect.Value.Call) == k0 + 1 && callarg(reflect.Value.Call, k0, 0) == option.value
 //@   ensures[C09,C11] err == nil ==> nfails(convert) == old(nfails(convert))
-//@   ensures[C14,C01] value != nil && option.value.Type().NumIn() == 0 ==> isTyped(err, ErrNoArgumentForBool) && ncalls(convert) == c0 && ncalls(reflect.Value.Call) == k0
-//@   ensures[C01,C11] value != nil && option.value.Type().NumIn() != 0 ==> ncalls(convert) == c0 + 1 && callarg(convert, c0, 0) == *value && (callres(convert, c0, 0) != nil ==> err == callres(convert, c0, 0) && ncalls(reflect.Value.Call) == k0) && (callres(convert, c0, 0) == nil ==> ncalls(reflect.Value.Call) == k0 + 1 && callarg(reflect.Value.Call, k0, 0) == option.value)
+//@   ensures[C14,C01] !option.value.IsNil() && value != nil && option.value.Type().NumIn() == 0 ==> isTyped(err, ErrNoArgumentForBool) && ncalls(convert) == c0 && ncalls(reflect.Value.Call) == k0
+//@   ensures[C01,C11] !option.value.IsNil() && value != nil && option.value.Type().NumIn() != 0 ==> ncalls(convert) == c0 + 1 && callarg(convert, c0, 0) == *value && (callres(convert, c0, 0) != nil ==> err == callres(convert, c0, 0) && ncalls(reflect.Value.Call) == k0) && (callres(convert, c0, 0) == nil ==> ncalls(reflect.Value.Call) == k0 + 1 && callarg(reflect.Value.Call, k0, 0) == option.value)
 //@   ensures is(err, *Error) ==> as(err, *Error) != nil
 //@   ensures !isTyped(err, ErrUnknownFlag)
 // The wrapper that turns a foreign conversion error into ErrMarshal: it names
